@@ -290,8 +290,28 @@ func (l countLogger) Error(msg string, kv ...interface{}) {
 }
 func (l countLogger) With(...interface{}) log.Logger { return l }
 
+// subLike is what both *pubsub.Subscription and the EventBus's types.Subscription offer
+type subLike interface {
+	Out() <-chan pubsub.Message
+	Cancelled() <-chan struct{}
+	Err() error
+}
+
+// msgID: publications are identified by a number; EventBus publications carry it as their height
+func msgID(m pubsub.Message) int {
+	switch d := m.Data().(type) {
+	case int:
+		return d
+	case types.EventDataTx:
+		return int(d.Height)
+	case types.EventDataNewBlockHeader:
+		return int(d.Header.Height)
+	}
+	return -1
+}
+
 type handle struct {
-	sub  *pubsub.Subscription
+	sub  subLike
 	cap  int
 	mu   sync.Mutex
 	list []pubsub.Message // unbuffered: what the always-ready reader took
@@ -321,6 +341,8 @@ type world struct {
 	txi     *txkv.TxIndex
 	bi      *blockidx.BlockerIndexer
 	svc     *svcWorld
+	bus     *types.EventBus // the real event bus (validateAndStringifyEvents + its pubsub server)
+	bhandle map[string]*handle
 }
 
 // ---------- the real IndexerService on a real EventBus ----------
@@ -463,7 +485,35 @@ func (w *world) barrier() {
 	_ = w.srv.PublishWithEvents(context.Background(), nil, map[string][]string{})
 }
 
+func (w *world) eventBus() *types.EventBus {
+	if w.bus == nil {
+		w.bus = types.NewEventBus()
+		if err := w.bus.Start(); err != nil {
+			panic(err)
+		}
+		w.bhandle = map[string]*handle{}
+	}
+	return w.bus
+}
+
+// busBarrier: the bus's command channel is unbuffered, so once this subscribe command has been
+// received every earlier command is fully processed; the barrier client is removed right away.
+func (w *world) busBarrier() {
+	ctx := context.Background()
+	if _, err := w.bus.Subscribe(ctx, "\x00barrier", query.Empty{}, 1); err == nil {
+		_ = w.bus.UnsubscribeAll(ctx, "\x00barrier")
+	}
+}
+
 func (w *world) close() {
+	if w.bus != nil {
+		_ = w.bus.Stop()
+		for _, h := range w.bhandle {
+			if h.stop != nil {
+				close(h.stop)
+			}
+		}
+	}
 	if w.svc != nil && !w.svc.stalled {
 		close(w.svc.pubq)
 		_ = w.svc.is.Stop()
@@ -501,12 +551,12 @@ func (w *world) read(h *handle) string {
 		if len(h.list) > 0 {
 			m := h.list[0]
 			h.list = h.list[1:]
-			return fmt.Sprintf("msg %d", m.Data().(int))
+			return fmt.Sprintf("msg %d", msgID(m))
 		}
 	} else {
 		select {
 		case m := <-h.sub.Out():
-			return fmt.Sprintf("msg %d", m.Data().(int))
+			return fmt.Sprintf("msg %d", msgID(m))
 		default:
 		}
 	}
@@ -614,6 +664,72 @@ func execCase(c core.Case) []string {
 		case "read":
 			w.server()
 			h := w.handles[m["c"]+" "+m["q"]]
+			if h == nil {
+				out = append(out, "no-sub")
+			} else {
+				out = append(out, w.read(h))
+			}
+		case "bussub":
+			bus := w.eventBus()
+			q, bad := parseChecked(unhx(m["q"]), decAst(m["ast"]))
+			if q == nil || bad != "" {
+				out = append(out, "query:"+bad)
+				continue
+			}
+			capN, _ := strconv.Atoi(m["cap"])
+			var s subLike
+			var err error
+			if capN == 0 {
+				s, err = bus.SubscribeUnbuffered(ctx, unhx(m["c"]), q)
+			} else {
+				s, err = bus.Subscribe(ctx, unhx(m["c"]), q, capN)
+			}
+			switch err {
+			case nil:
+				w.busBarrier()
+				key := m["c"] + " " + m["q"]
+				if old := w.bhandle[key]; old != nil && old.stop != nil {
+					close(old.stop)
+				}
+				h := &handle{sub: s, cap: capN}
+				if capN == 0 {
+					h.sync = make(chan chan struct{})
+					h.stop = make(chan struct{})
+					go h.pump()
+				}
+				w.bhandle[key] = h
+				out = append(out, "ok")
+			case pubsub.ErrAlreadySubscribed:
+				out = append(out, "err-already")
+			default:
+				out = append(out, "err-other:"+err.Error())
+			}
+		case "bustx":
+			bus := w.eventBus()
+			id, _ := strconv.ParseInt(m["id"], 10, 64)
+			err := bus.PublishEventTx(types.EventDataTx{TxResult: abci.TxResult{Height: id, Index: 0, Tx: []byte(unhx(m["tx"])),
+				Result: abci.ResponseDeliverTx{Events: decTxEvents(m["events"])}}})
+			w.busBarrier()
+			if err != nil {
+				out = append(out, "err-other:"+err.Error())
+			} else {
+				out = append(out, "ok")
+			}
+		case "bushdr":
+			bus := w.eventBus()
+			id, _ := strconv.ParseInt(m["id"], 10, 64)
+			err := bus.PublishEventNewBlockHeader(types.EventDataNewBlockHeader{Header: types.Header{Height: id},
+				ResultBeginBlock: abci.ResponseBeginBlock{Events: decTxEvents(m["begin"])},
+				ResultEndBlock:   abci.ResponseEndBlock{Events: decTxEvents(m["end"])}})
+			w.busBarrier()
+			if err != nil {
+				out = append(out, "err-other:"+err.Error())
+			} else {
+				out = append(out, "ok")
+			}
+		case "busread":
+			w.eventBus()
+			h := w.bhandle[m["c"]+" "+m["q"]]
 			if h == nil {
 				out = append(out, "no-sub")
 			} else {
@@ -768,12 +884,12 @@ func main() {
 			}
 			return false
 		},
-		Rule: "five generated streams over small alphabets (so equal keys/values/queries collide): " +
+		Rule: "six generated streams over small alphabets (so equal keys/values/queries collide): " +
 			"pubsub (1-4 clients, query pool of 2-5 queries drawn from the condition grammar incl. ill-typed numeric comparisons, undotted EXISTS, " +
 			"buffered capacities 1-3 and unbuffered subscriptions, random subscribe/unsubscribe/unsubscribeAll/publish/read/stat interleavings, slow and fast readers); " +
 			"query (AST rendered to the query language with random spacing, parsed by the real parser, Conditions() compared with the AST, Matches vs model on random event maps incl. " +
 			"non-numeric, signed, zero-padded, overflowing values and numbers); tx index clean (unique txs, typed keys) and hostile (separator in values/keys, duplicate txs, " +
-			"non-canonical numbers, reserved keys, tx.hash/tx.height conditions with the wrong operand type, repeated range bounds); block index likewise; indexer service (blocks of 0-3 txs committed through the event bus, incl. blocks whose begin/end events the block index rejects, duplicate txs, followed by Get of every committed tx, searches and Has). " +
+			"non-canonical numbers, reserved keys, tx.hash/tx.height conditions with the wrong operand type, repeated range bounds); block index likewise; event bus (tx and header events published through the real EventBus, i.e. through validateAndStringifyEvents: attributes with empty values, empty keys, repeated keys, index=false; EXISTS / = '' / CONTAINS queries; the same txs indexed and searched with the same queries); indexer service (blocks of 0-3 txs committed through the event bus, incl. blocks whose begin/end events the block index rejects, duplicate txs, followed by Get of every committed tx, searches and Has). " +
 			"Non-trivial = some message delivered, some query matched, or some search returned a hit; distinct by hash of the op list",
 		Assumptions: []string{
 			"float operands, TIME/DATE operands and attribute values whose first digit run contains a '.' are excluded from model and generators (the code goes through ParseFloat/time.Parse there)",
